@@ -145,7 +145,7 @@ def basis_spline(  # pylint: disable=dangerous-default-value  # always replaced 
     # Prepare knots
     if "knots" not in _state:
         knots = [] if knots is None else list(knots)
-        if df:
+        if df is not None:
             nknots = df - degree - (1 if include_intercept else 0)
             if nknots < 0:
                 raise ValueError(
